@@ -100,6 +100,7 @@ pub fn check_case(ctx: &mut Ctx, c: &Case) {
     // one case in three runs with a tracing subscriber that enables and formats everything: what is
     // returned does not depend on whether anybody listens
     let with_sub = (c.salt as usize + c.frames.len() + c.chunks.len()) % 3 == 0;
+    let ev0 = crate::trace_sub::events() + crate::trace_sub::spans();
     let r = guard(|| {
         let body = || {
         let mut tb = TcpBuffer::new();
@@ -161,6 +162,7 @@ pub fn check_case(ctx: &mut Ctx, c: &Case) {
     });
     if with_sub {
         ctx.count("cases-under-a-tracing-subscriber");
+        ctx.count_n("tracing-events-seen-under-the-subscriber", crate::trace_sub::events() + crate::trace_sub::spans() - ev0);
     }
     match r {
         Err(p) => ctx.violation("C14", "no-panic", "TcpBuffer", "", w, "Some or None".into(), format!("panic: {} at {}", p.msg, p.loc)),
@@ -350,6 +352,7 @@ pub fn run(ctx: &mut Ctx) {
         ctx.count("stun-like-payload-cases");
     }
     ctx.require("stun-like-payload-cases", 1_000);
+    ctx.require("tracing-events-seen-under-the-subscriber", 10_000);
     ctx.require("compositions", 10_000);
     ctx.require("random-cases", 500);
     ctx.require("cases-with-empty-frame", 100);
